@@ -93,6 +93,8 @@ pub const CUBE_PATTERNS: &[&str] = &[
     // hostname anchor
     "||ads.net^", "||ads.net", "||ads.net/", "||ads.net/ads", "||ads.net*ads", "||ads.net^ads", "||ads.net^*ads", "||ads.net/ads|", "||ads.net^|", "||net^", "||a.ads.net^", "||ads.net/*/bar",
     "||tracker.co.uk^", "||co.uk^", "||example.com/foo/bar", "||ads.net:", "||ads.net?", "||ads.", "||1.2.3.4^", "||1.2.3.4/ads",
+    // non-ASCII letters inside rule tokens
+    "/\u{6587}ads^", "/\u{e9}/bar", "bar\u{e9}^", "||ads.net/\u{6587}ads",
     // full regex and empty
     "/ads[a-z]*\\/bar/", "/^https?:\\/\\/ads\\./", "/\\/ADS/", "*", "",
 ];
@@ -152,7 +154,7 @@ pub const PATHS: &[&str] = &[
 /// Paths with non-ASCII characters next to rule tokens: letters (token characters) and punctuation
 /// (separators, on both the rule side and the request side of the token index).
 pub const PATHS_NONASCII: &[&str] = &[
-    "/ads\u{2014}foo", "/bar\u{2014}x", "/x\u{b7}bar", "/\u{2014}foo\u{2014}", "/ads/foo/bar\u{b7}", "/\u{e9}/bar", "/bar\u{e9}", "/foo/bar\u{a0}", "/ads\u{ff0f}foo/bar", "/\u{6587}ads/foo",
+    "/ads\u{2014}foo", "/bar\u{2014}x", "/x\u{b7}bar", "/\u{2014}foo\u{2014}", "/ads/foo/bar\u{b7}", "/\u{e9}/bar", "/bar\u{e9}", "/foo/bar\u{a0}", "/ads\u{ff0f}foo/bar", "/\u{6587}ads/foo", "/\u{6587}ads\u{2014}x", "/x\u{b7}\u{e9}/bar",
 ];
 
 pub const QUERIES: &[&str] = &["", "?x=1", "?utm=1&b=2"];
